@@ -306,6 +306,20 @@ def run_case(spec, ctx):
         feat = _label(E) if kind in ("leaf", "bleaf") else kind + ":" + _label(E if kind != "product" else E["a"])
         with ctx.lib("construct", feature=feat):
             D = build.domain(E)
+        depprod = kind == "product" and bool(rg.free_vars(E["a"]) & {v for v, _ in rg.space_vars(E["b"])})
+        if depprod:
+            # first factor depends on the second: the built-in volume is an estimate (known finding D18, judged by
+            # the statistical checks); here only the user-volume history below is judged
+            classes.append("depproduct")
+            params0 = build.params_points(spec["prows"])
+            ra = _vol(ctx, D, params0, "volume (first call)", "product:dependent")
+            rb = _vol(ctx, D, params0, "volume (second call)", "product:dependent")
+            if ra is not None and rb is not None and (len(ra[0]) != len(rb[0]) or not _close(ra[0], rb[0]).all()):
+                ctx.violation("volume-identity", "product:dependent|asked-twice",
+                              f"volume() of the same product: {np.round(ra[0], 5).tolist()} at the first call, "
+                              f"{np.round(rb[0], 5).tolist()} at the second")
+            _product_uservolume(spec, ctx, D, "product:dependent")
+            return {"nontrivial": True, "classes": classes, "summary": summary}
         vals = _compare_measure(ctx, E, D, spec["prows"], feat, "volume")
         classes += sorted(specs.features(E) & {"dep", "par-cw", "tri-cw", "par-slanted", "poly", "mesh", "sphere", "circle", "interval", "tri", "par"})
         summary["volume"] = None if vals is None else np.round(vals, 5).tolist()
@@ -330,6 +344,10 @@ def run_case(spec, ctx):
                     ctx.violation("set-volume-ignored", "product|factor-set-after-first-use",
                                   f"product volume {np.round(got, 5).tolist()} after factor a got the user volume {uv}: "
                                   f"{uv} * volume(b) = {np.round(want, 5).tolist()}")
+        if kind == "product" and vals is not None and k <= 1:
+            # "a user-set volume overrides it" on the product itself (the documented use for products whose first
+            # factor depends on the second): volume, density sampling and volume again on the SAME object
+            _product_uservolume(spec, ctx, D, feat)
     elif kind in ("union-disjoint", "cut-contained"):
         _flagged(spec, ctx, summary)
     elif kind == "partial":
@@ -425,6 +443,31 @@ def _partial(spec, ctx, summary):
     if ref is not None and not _close(r1[0][:1], np.asarray(ref)[:1])[0]:
         ctx.violation("volume-value", feat, f"partially evaluated volume {r1[0][0]:.6g}, measure {float(ref[0]):.6g}")
     summary.update(volume=float(r1[0][0]))
+
+
+def _product_uservolume(spec, ctx, D, feat):
+    params = build.params_points(spec["prows"])
+    v2 = 0.7 + (spec["rng"] % 53) / 7.0
+    f2 = "set_volume:number|product"
+    with ctx.lib("set_volume on the product", feature=f2):
+        D.set_volume(v2)
+    if spec["rng"] % 2 == 0:
+        r3 = _vol(ctx, D, params, "volume after set_volume on the product", f2)
+        if r3 is not None and not _close(r3[0][:1], np.asarray([v2]))[0]:
+            ctx.violation("set-volume-ignored", f2, f"volume {np.round(r3[0], 5).tolist()} after set_volume({v2:.5g})")
+    dens = 9.3 / v2
+    with ctx.lib("sample_random_uniform(d) after set_volume", feature=f2, budget_calls=40000):
+        with warnings.catch_warnings():
+            warnings.simplefilter("ignore")
+            Pd = D.sample_random_uniform(d=dens, params=params)
+    expect = int(torch.ceil(torch.tensor(dens, dtype=torch.float32) * torch.tensor(v2, dtype=torch.float32)))
+    if len(Pd) != expect:
+        ctx.violation("set-volume-ignored", f2 + "|density",
+                      f"density sampling after set_volume({v2:.5g}) on the product returned {len(Pd)} rows, ceil(d * user volume) = {expect}")
+    r4 = _vol(ctx, D, params, "volume after set_volume and density sampling", f2)
+    if r4 is not None and not _close(r4[0][:1], np.asarray([v2]))[0]:
+        ctx.violation("set-volume-lost", f2 + "|after-density-sampling",
+                      f"user volume {v2:.5g} but the product reports {np.round(r4[0], 5).tolist()} after density sampling")
 
 
 def _setvolume(spec, ctx, summary):
@@ -599,4 +642,13 @@ def extra_cases(tier, seed):
         out.append({"kind": "bleaf", "rng": seed + j, "E": {"t": "boundary", "a": L}, "prows": rows})
         if L["t"] != "sphere":
             out.append({"kind": "product", "rng": seed + j, "E": {"t": "product", "a": L, "b": T}, "prows": rows})
+            # one parameter row: the product then also gets a user volume and is sampled with a density
+            out.append({"kind": "product", "rng": seed + j, "E": {"t": "product", "a": L, "b": T}, "prows": {"p": [[0.35]]}})
+            out.append({"kind": "product", "rng": seed + j + 1, "E": {"t": "product", "a": L, "b": T}, "prows": {"p": [[0.8]]}})
+    # products whose first factor depends on the second (the documented use of set_volume on a product)
+    afft = lambda v0, V1: {"k": "affine", "var": "t", "v0": v0, "V1": [[v] for v in V1]}      # noqa: E731
+    for j, A in enumerate(({"t": "circle", "var": "x", "c": C([0.2, 0.1]), "r": afft([0.4], [0.6])},
+                           {"t": "interval", "var": "u", "lo": C([-1.0]), "hi": afft([0.5], [1.5])})):
+        for r in (0, 1):
+            out.append({"kind": "product", "rng": seed + 2 * j + r, "E": {"t": "product", "a": A, "b": T}, "prows": {}})
     return out
